@@ -57,6 +57,20 @@ Theorem filter_proto_round_trip_except_known :
 Proof. exact proto_roundtrip. Qed.
 Print Assumptions filter_proto_round_trip_except_known.
 
+(** After the proposed repair C13-fix-5 (Valuer.Value dereferences a non-nil pointer handed in for a column
+    whose type is not a pointer: [valuer5], [tester5], [filter_to_proto5]) no pointer exclusion is left: for
+    every filter whose values have their column's Go base type, FilterFromProto (FilterToProto f) is an
+    error or a filter with the same verdict on every row. *)
+Theorem filter_proto_round_trip_after_fix5 :
+  forall e t f p,
+    env_laws e -> filter_typed5 e t f = true -> filter_to_proto5 t f = Ok p ->
+    match filter_from_proto e t p with
+    | Err => True
+    | Ok f' => forall row, tester5 t f' row = tester5 t f row
+    end.
+Proof. exact proto_roundtrip5. Qed.
+Print Assumptions filter_proto_round_trip_after_fix5.
+
 (** The excluded class is a genuine counterexample: filter {e: &false} on an implicitnull bool column. *)
 Theorem filter_proto_pointer_to_zero_refuted :
   exists e t f p f' row,
@@ -217,3 +231,28 @@ Example sub_microsecond_time_is_truncated :
   scanner (time_env toy_env) (mk_desc BTime false TNone) (SBytes (fmt_us_c 1700000000123456789))
   = Ok (FVal (GTime 1700000000123456000)).
 Proof. vm_compute. reflexivity. Qed.
+
+(** The repaired Valuer on the filter of the open finding: {e: &false} on an implicitnull column is NULL
+    (as {e: false} is), the filter is typed in the sense of the repaired theorem, and the pointer exclusion
+    of the old one rejects it. *)
+Example fix5_pointer_to_zero :
+  let t := [("e"%string, mk_desc BBool false TImplicitNull)] in
+  let f := [("e"%string, Dyn BBool true (FVal (GBool false)))] in
+  filter_typed5 toy_env t f = true /\ filter_typed toy_env t f = false /\
+  filter_to_proto5 t f = Ok [("e"%string, PNull)] /\ filter_to_proto t f = Ok [("e"%string, PBool false)] /\
+  filter_from_proto toy_env t [("e"%string, PNull)] = Err.
+Proof. vm_compute. repeat split; reflexivity. Qed.
+
+(** The tri-state column type (its own Valuer / Scanner, NULL <-> a value that is not its zero value):
+    "unanswered" is written as NULL and NULL is handed to the type's Scan, which reads "unanswered". *)
+Example tri_state_row :
+  let t := [("ans"%string, mk_desc (BCustom CTri) false TNone); ("opt"%string, mk_desc (BCustom CTri) true TNone)] in
+  let x := [FVal (GInt 2); FVal (GInt 1)] in
+  unbuild t x = [DNull; DInt 1] /\
+  row_repr toy_env t x [SNull; SInt 8 1] /\ build toy_env t [SNull; SInt 8 1] = Ok x.
+Proof.
+  split; [reflexivity|]. split; [|vm_compute; reflexivity].
+  eapply (rr_cons _ _ _ _ _ _ _ _ (ColInt 8 false) PBinlog); try reflexivity.
+  eapply (rr_cons _ _ _ _ _ _ _ _ (ColInt 8 false) PBinlog); try reflexivity.
+  constructor.
+Qed.
